@@ -296,6 +296,7 @@ def mentions (j : Nat) : Op → Bool
   | .swap a b _ => a == j || b == j
   | .destroy a => a == j
   | .poke a _ => a == j
+  | .pokeRef a _ => a == j
   | .castVal a _ _ => a == j
   | .castPtr a _ _ => a == some j
 
@@ -319,6 +320,11 @@ theorem specStep_frame (n : Nat) (p : APool) (op : Op) (j : Nat) (h : mentions j
   case swap a b f => split <;> simp [upd_apply, Ne.symm h.1, Ne.symm h.2]
   case destroy a => split <;> simp [upd_apply, Ne.symm h]
   case poke a v =>
+    split
+    · rfl
+    · rfl
+    · split <;> simp [upd_apply, Ne.symm h]
+  case pokeRef a v =>
     split
     · rfl
     · rfl
@@ -349,6 +355,13 @@ theorem independent_of_others (n : Nat) (ops more : List Op) (j : Nat)
       rw [ih _ (inv_step op hs) (fun o ho => hl o (List.mem_cons_of_mem _ ho)), (step_refines hs op).1]
       exact specStep_frame n _ op j (hl op List.mem_cons_self)
   exact key more _ (own_of_ops n ops) h
+
+/-- Mutation through the reference form `any_cast<T&>(a) = v` writes exactly what the pointer form
+    writes (so every independence statement above applies to it) and throws exactly when the stored
+    type differs. -/
+theorem ref_mutation_as_ptr (s : St) (o : Obj) (v : Val) :
+    (pokeRef s o v).1 = poke s o v ∧ ((pokeRef s o v).2 = true ↔ typeOf s o = some v.tag) :=
+  ⟨pokeRef_fst s o v, pokeRef_snd s o v⟩
 
 /-- A moved-from container is empty, and the value arrives intact (move construction and move
     assignment between different containers); no held object is copied or moved (the log is unchanged
@@ -514,6 +527,10 @@ example : (step 3 (run 3 init (demo2.take 13)) (.castPtr (some 1) .str true)).2 
           (step 3 (run 3 init (demo2.take 13)) (.castPtr (some 1) .dbl false)).2 = .cast none ∧
           (step 3 (run 3 init (demo2.take 16)) (.destroy 1)).2 = .invalid := by decide
 example : liveCells (run 3 init demo2) = [4] ∧ liveCells (destroyAll 3 (run 3 init demo2)) = [] := by decide
+
+example : (step 3 (run 3 init [.ctorVal 0 .rref p7]) (.pokeRef 0 ⟨.probe, 8⟩)).2 = .done ∧
+          held (step 3 (run 3 init [.ctorVal 0 .rref p7]) (.pokeRef 0 ⟨.probe, 8⟩)).1 (.named 0) = some ⟨.probe, 8⟩ ∧
+          (step 3 (run 3 init [.ctorVal 0 .rref p7]) (.pokeRef 0 ⟨.int, 8⟩)).2 = .cast none := by decide
 
 /-- the hypotheses of `copy_independent`, `copy_assign_independent`, `moved_from_empty`,
     `self_assign_noop`, `reset_empties` are satisfiable in reachable states holding a value -/
